@@ -10,11 +10,16 @@ ID = "C05"
 LEAN_PROPS = ["FcpptProofs.Props.C05"]
 
 
+FAMILIES = ("alg", "opt", "eith", "tup", "grid", "opts", "parse")
+
+
 def _repo_srcs():
     # fcppt::options / exceptions / type names are compiled in (options::flag / option constructors, parse_string)
     r = []
     for pat in ("libs/options/src/options/*.cpp", "libs/options/src/options/detail/*.cpp", "libs/options/impl/src/options/impl/*.cpp"):
         r += sorted(os.path.relpath(f, paths.REPO) for f in glob.glob(os.path.join(paths.REPO, pat)))
+    # the family units of the harness (absolute paths: compiled in parallel with harness/c05.cpp)
+    r += [os.path.join(paths.ROOT, "harness", f"c05_{k}.cpp") for k in FAMILIES]
     r += ["libs/core/src/exception.cpp", "libs/core/src/insert_extract_locale.cpp", "libs/core/src/from_std_string.cpp",
           "libs/core/src/type_name_from_info.cpp", "libs/core/src/type_name.cpp"]
     return r
